@@ -231,7 +231,13 @@ def run(prop, tier, seed, args):
     bounded = None
     if hasattr(mod, "bounded") and not args.no_bounded and not args.only:
         tb = time.time()
-        bounded = mod.bounded(tier, seed)
+        try:
+            bounded = mod.bounded(tier, seed)
+        except Exception as e:  # noqa: BLE001
+            # the stand-in itself crashed (typically: the code under test raised where the stand-in's own bookkeeping did not expect it).  That is a
+            # checker error, not a verdict -- but the verdicts of the proof part above are kept and reported.
+            rep.errors.append(f"bounded stand-in crashed: {str(e)[-400:]}")
+            bounded = {"evaluations": 0, "distinct_nontrivial": 0, "rule": "the stand-in crashed on this tree (see errors)", "failures": []}
         bounded["seconds"] = round(time.time() - tb, 2)
         for f in bounded.pop("failures", []):
             fd = fw.match_finding(findings, f["ident"])
